@@ -2,7 +2,7 @@
    The true edge set of a well-formed graph is its kids lists; by C11_first_insertion it is, after any operation sequence,
    the log of accepted and not yet removed insertions in insertion order. *)
 From Coq Require Import List NArith Bool Sorted.
-From PieV Require Import Model.Dag Proofs.DagLib Proofs.DagWF Proofs.DagPath Proofs.DagRun Proofs.DagViews Proofs.DagQueries Proofs.DagLog Proofs.DagFuel Proofs.DagNoFuel.
+From PieV Require Import Model.Dag Proofs.DagLib Proofs.DagWF Proofs.DagPath Proofs.DagRun Proofs.DagViews Proofs.DagQueries Proofs.DagLog Proofs.DagFuel Proofs.DagNoFuel Proofs.DescNoFuel.
 Import ListNotations.
 Open Scope N_scope.
 
@@ -47,6 +47,26 @@ Theorem C11_descendants_sorted : forall (E : Type) (g : dag E) n l,
   NoDup l /\ (forall x, In x l <-> path g n x) /\ StronglySorted (fun a b => rank_of g a < rank_of g b) l.
 Proof. exact @descendants_spec. Qed.
 Print Assumptions C11_descendants_sorted.
+
+(* without a fuel premise: on a well-formed graph the two descendants queries always answer (the model's out-of-fuel
+   outcome is unreachable, DescNoFuel.v), and the answer is the set of proper descendants, each once *)
+Theorem C11_descendants_unsorted_always_answers : forall (E : Type) (g : dag E) n, WF g -> live g n = true ->
+  exists l, descendants_unsorted g n = AOk l /\
+    NoDup (map snd l) /\ (forall x, In x (map snd l) <-> path g n x) /\ (forall r x, In (r, x) l -> r = rank_of g x).
+Proof. exact @descendants_unsorted_total. Qed.
+Check C11_descendants_unsorted_always_answers : forall (E : Type) (g : dag E) n, WF g -> live g n = true ->
+  exists l, descendants_unsorted g n = AOk l /\
+    NoDup (map snd l) /\ (forall x, In x (map snd l) <-> path g n x) /\ (forall r x, In (r, x) l -> r = rank_of g x).
+Print Assumptions C11_descendants_unsorted_always_answers.
+
+Theorem C11_descendants_sorted_always_answers : forall (E : Type) (g : dag E) n, WF g -> live g n = true ->
+  exists l, descendants g n = AOk l /\
+    NoDup l /\ (forall x, In x l <-> path g n x) /\ StronglySorted (fun a b => rank_of g a < rank_of g b) l.
+Proof. exact @descendants_total. Qed.
+Check C11_descendants_sorted_always_answers : forall (E : Type) (g : dag E) n, WF g -> live g n = true ->
+  exists l, descendants g n = AOk l /\
+    NoDup l /\ (forall x, In x l <-> path g n x) /\ StronglySorted (fun a b => rank_of g a < rank_of g b) l.
+Print Assumptions C11_descendants_sorted_always_answers.
 
 Theorem C11_topo_cmp : forall (E : Type) (g : dag E) a b,
   live g a = true -> live g b = true -> topo_cmp g a b = Some (N.compare (rank_of g a) (rank_of g b)).
